@@ -20,7 +20,7 @@ from .common import chunks
 ID = "C18"
 RULE = (
     "path: {-q,-r} x {-f,stdin} x {-o,stdout} x --pretty x --no-unicode-escape x --no-type-checks x --debug x 13 queries x 3 "
-    "documents; pointer: {-p,-r} x {-f,stdin} x {-o,stdout} x --pretty x --no-unicode-escape x -u x --debug x 10 pointers x 3 "
+    "documents; pointer: {-p,-r} x {-f,stdin} x {-o,stdout} x --pretty x --no-unicode-escape x -u x --debug x 15 pointers (5 with outer blanks) x 3 "
     "documents; patch: {-f,stdin} x {-o,stdout} x --pretty x --no-unicode-escape x -u x --debug x 11 patches x 3 documents; "
     "expected outcome computed by the corresponding library call with the same options. "
     "state = distinct (sub-command, options, expression, document); non-trivial = the library accepts (exit status 0 expected)"
@@ -35,10 +35,14 @@ ASSUMPTIONS = [
 DOCS = ['{"a": [1, 2, {"a": 3}], "arr": [[1], [1, 2]], "a b": "sp", "\\u00e9": "acute", "s": "x"}', "[1, 2, [3, {\"a\": 4}]]", '{"a":',
         # byte-level forms: UTF-8 with BOM, UTF-16, invalid UTF-8, non-finite numbers
         b'\xef\xbb\xbf{"a": [1, "\xc3\xa9"], "s": "x"}', '{"a": [1, "\u00e9"], "s": "x"}'.encode("utf-16"), b'{"a": "\xff\xfe\xfd"}',
-        '{"a": [1e999, -1e999], "s": "x"}']
+        '{"a": [1e999, -1e999], "s": "x"}',
+        # not JSON, and without any bracket or brace (the library's "probably a bare string" heuristic is for str arguments only)
+        "hello", "1 2", "", '"open']
 QUERIES = ["$.a", "$\n.a\n[0]", "$[\n'a',\n's'\n]", "$..a", "$[?@.a]", "$.arr[?length(@) == 1]", "$['\\u0061']", "$[?length(@.*) == 1]", "", "$.*", "$.nope",
            "$[", "$[?count(1) == 1]", "$[?nosuch(@)]", "$[9007199254740992]"]
-POINTERS = ["/a/0", "", "/arr/1/0", "/a%20b", "/a b", "/\\u00e9", "/zz", "/a/9", "a", "/s/0"]
+POINTERS = ["/a/0", "", "/arr/1/0", "/a%20b", "/a b", "/\\u00e9", "/zz", "/a/9", "a", "/s/0",
+            # outer blanks: an inline expression is the library's argument as it stands; an expression file is stripped
+            "/a/1 ", "/s ", "/a b ", " /a/0", "/a/1\t"]
 PATCHES = ['[{"op": "add", "path": "/b", "value": 1}]', '[{"op": "remove", "path": "/a/0"}]', "[]",
            '[{"op": "add", "path": "/a%20b", "value": 1}]', '[{"op": "replace", "path": "/\\\\u00e9", "value": 1}]',
            '[{"op": "remove", "path": "/zz"}]', '[{"op": "test", "path": "/s", "value": "y"}]', "{}", "[",
@@ -130,11 +134,11 @@ def library(case):
             json.loads(doc_text)  # undecodable bytes: UnicodeDecodeError (a ValueError) = an undecodable document
         if case["cmd"] == "path":
             env = jsonpath.JSONPathEnvironment(unicode_escape=not case["nue"], well_typed=not case["ntc"])
-            p = env.compile(case["expr"].strip())
+            p = env.compile(case["expr"] if case["inline"] else case["expr"].strip())
             return ("ok", p.findall(json.loads(doc_text)))
         if case["cmd"] == "pointer":
             doc = json.loads(doc_text) if not _bad_json(doc_text) else None
-            ptr = jsonpath.JSONPointer(case["expr"].strip(), unicode_escape=not case["nue"], uri_decode=case["uri"])
+            ptr = jsonpath.JSONPointer(case["expr"] if case["inline"] else case["expr"].strip(), unicode_escape=not case["nue"], uri_decode=case["uri"])
             if doc is None:
                 json.loads(doc_text)
             return ("ok", ptr.resolve(doc))
